@@ -23,7 +23,7 @@ int __real_pthread_join(pthread_t, void **);
 
 #define MAXT 4
 #define MAXCALLS 400
-#define NKIND 24
+#define NKIND 38
 
 static const plan *P;
 static int nthreads;
@@ -95,7 +95,22 @@ static uint64_t do_call(int kind, int64_t arg)
         case 20: return bits_of(cmb_random_chisquared(1.0 + a));
         case 21: return (uint64_t)cmb_random_negative_binomial(1 + a, pb);
         case 22: return bits_of(cmb_random_rayleigh(1.0 + a));
-        default: return bits_of(cmb_random_PERT(0.0, 1.0 + a, 6.0));
+        case 23: return bits_of(cmb_random_PERT(0.0, 1.0 + a, 6.0));
+        case 24: return bits_of(cmb_random_PERT_mod(0.0, 1.0 + a, 6.0, 2.0 + a));
+        case 25: return bits_of(cmb_random_beta(shapes[a] + 1.0, 2.0, -1.0, 4.0));
+        case 26: return bits_of(cmb_random_F_dist(2.0 + a, 5.0));
+        case 27: return bits_of(cmb_random_std_t_dist(2.0 + a));
+        case 28: return bits_of(cmb_random_t_dist(1.0, 2.0, 3.0 + a));
+        case 29: return bits_of(cmb_random_cauchy(0.0, 1.0 + a));
+        case 30: return bits_of(cmb_random_logistic(0.0, 1.0 + a));
+        case 31: return bits_of(cmb_random_pareto(1.5 + a, 1.0));
+        case 32: { const double ma[3] = { 1.0, 0.5, 2.0 }; return bits_of(cmb_random_hypoexponential(1 + a % 3, ma)); }
+        case 33: { const double ma[3] = { 1.0, 0.5, 2.0 }; const double pa3[3] = { 0.5, 0.25, 0.25 }; return bits_of(cmb_random_hyperexponential(3, ma, pa3)); }
+        case 34: return (uint64_t)cmb_random_pascal(1 + a, pb);
+        case 35: { const double pa4[4] = { 0.1, 0.2, 0.3, 0.4 }; return (uint64_t)cmb_random_loaded_dice(4, pa4); }
+        case 36: { const double pa4[4] = { 0.4, 0.1, 0.25, 0.25 }; struct cmb_random_alias *ap = cmb_random_alias_create(4, pa4);
+                   const uint64_t r = (uint64_t)cmb_random_alias_sample(ap) * 4u + (uint64_t)cmb_random_alias_sample(ap); cmb_random_alias_destroy(ap); return r; }
+        default: return bits_of(cmb_random_normal(0.0, 1.0)) ^ (uint64_t)cmb_random_flip();
     }
 }
 
@@ -112,7 +127,9 @@ static void *thread_script(void *vp)
     for (int i = 0; i < P->n; i++) {
         const pline *l = &P->l[i];
         if (!pis(l, "D") || (int)((uint64_t)pa(l, 0) % (uint64_t)nthreads) != t) continue;
-        if (pa(l, 1) == 99) cmb_random_initialize(seed_of(pa(l, 2))); else (void)do_call((int)pa(l, 1), pa(l, 2));
+        if (pa(l, 1) == 99) cmb_random_initialize(seed_of(pa(l, 2)));
+        else if (pa(l, 1) == 98) { cmb_random_terminate(); PROBE("rng.terminate_in_history"); }      /* the end of an earlier trial */
+        else (void)do_call((int)pa(l, 1), pa(l, 2));
         baton_yield();
     }
     cmb_random_initialize(seed_for_thread(t));
@@ -210,7 +227,7 @@ static void rng_gen(plan *p, uint64_t seed, const char *cfg)
             const unsigned z = (unsigned)vrng_below(&r, 10);
             int64_t kind = (int64_t)vrng_below(&r, NKIND);
             if (z < 3) kind = 5;                       /* flips: a partially consumed bit cache */
-            else if (z < 4) kind = 99;                 /* an earlier seeding */
+            else if (z < 4) kind = vrng_chance(&r, 1, 3) ? 98 : 99;   /* an earlier seeding, or the terminate call that ends a trial */
             else if (z < 6) kind = vrng_chance(&r, 1, 2) ? 6 : 7;  /* cached parameters */
             plan_add(p, "D", 3, (int64_t)t, kind, (int64_t)vrng_below(&r, 8));
         }
